@@ -2,6 +2,7 @@ import Iec.Drv.C19
 import Iec.Drv.Asdu
 import Iec.Drv.Srv104
 import Iec.Drv.Cli104
+import Iec.Drv.Dispatch
 /-
 iecdrv — line-protocol driver: one operation per input line, one canonical result
 line per operation.  The C harnesses execute the same lines on the real code; the
@@ -30,7 +31,10 @@ def dispatch (st : DrvState) (ws : List String) : DrvState × String :=
           | none =>
             match Iec.Drv.Cli104.handle st.cli ws with
             | some (a, s) => ({ st with cli := a }, s)
-            | none => (st, "bad-op")
+            | none =>
+              match Iec.Drv.Dispatch.handle ws with
+              | some s => (st, s)
+              | none => (st, "bad-op")
 
 partial def loop (h : IO.FS.Stream) (out : IO.FS.Stream) (st : DrvState) : IO Unit := do
   let line ← h.getLine
